@@ -4,7 +4,7 @@ META = dict(
     engine="E-KV",
     technique="Lean 4 proof, two levels. Stage A: pure multistore model (simulation between the list-of-IAVL-trees model and a per-height map specification, lifted over all block histories and all interleavings of historical reads). Stage B: an explicit-heap model of the Go IAVL (node objects, child pointers, hash memoisation, node DB, LRU node cache, clone / rotate / balance / recursiveSet / recursiveRemove / SaveBranch / GetNode step by step) with a representation predicate, frame rules and an ownership invariant; every heap operation is proved to refine the pure model and to preserve every representation judgement; kernel-evaluated counterexamples on two mutated clone disciplines. Tie: differential correspondence on the real rootmulti.Store/iavl.Store with historical views held open across later writes and commits, plus a verified run-time monitor of the ownership discipline on the real Go heap dumped after every operation through a side-effect-free hook, plus the heap model replayed next to the real heap.",
     level_text="Kernel-checked theorems. Stage A (pure model): every read through a view of a committed height returns what the map committed at that height returns; the answer is unchanged by any later writes/commits on any substore and by any other historical or working reads interleaved (statement over arbitrary event lists); every committed height can be opened and LoadLazyVersion/CacheMultiStoreWithVersion open exactly the tree saved at that height. Stage B (heap model, any node-cache size, hash function a parameter with injectivity as hypothesis): heap_refines_pure — Set/Remove/SaveVersion/Rollback/WorkingHash/GetImmutable/LazyLoadVersion and reads through held handles with lazy child loading answer what the pure model answers and preserve the ownership invariant, for single operations and whole histories; saved_roots_frozen_heap — any object that represents a tree at any point of any history still represents it after any further operations (and the abstraction function abs returns it); historical_read_stable_heap — a root handle held across arbitrary later operations reads the committed tree; heap_write_once — every object evolves only by the decidable write-once relation cellLe, persisted objects never change, the DB only grows; clone_discipline_needed_rotation / _inplace — without the clone in rotations, resp. with in-place updates of never-persisted inner nodes, concrete histories change a saved version. The Go code is tied to both models on every run: answers through held views vs the per-height map; the real heap (object identity, persisted flag, memoised hash, child pointers, cache/disk resolution) is dumped after every operation and checked with cellLe and the ownership conditions (PROPFAIL heap-*), the abstraction of every dumped root must equal the pure model's tree, and for the first 160 operations of every stream the heap model's own working/lastSaved object shapes and (small caches) LRU queue must equal the dumped ones (DIFF).",
-    level_note="NOT covered by the proofs: concurrency — operations and reads are atomic steps of one sequential history; the iavlIterator goroutine (schedule between iterator creation and its first Valid()) and readers running concurrently with a writer on the shared nodeDB are outside the models (thorough tier: stage-A streams under -race). LoadVersion of an older version on the same tree object and SaveVersion's idempotent re-commit are modelled, kernel-evaluated in a counterexample and exercised by the harness, but are not operations of the refinement theorems. DeleteVersion/pruning/orphan records, batch atomicity, int8 heights are not modelled (pruning = nothing). Hash: injectivity of the node hash on its writeHashBytes input is a hypothesis. Context.PrevCtx is exercised over a synthetic block store (store part only). Trusted: Lean kernel; axioms propext, Classical.choice, Quot.sound; harness, hook and driver parser. With the optional height cache switched on (node flag, default off) historical reads are wrong in the ways recorded under C10; this check replays them as known findings with their own `hcache-` signatures.",
+    level_note="NOT covered by the proofs: concurrency — operations and reads are atomic steps of one sequential history; the iavlIterator goroutine (schedule between iterator creation and its first Valid()) and readers running concurrently with a writer on the shared nodeDB are outside the models (thorough tier: stage-A streams under -race). LoadVersion of an older version on the same tree object and SaveVersion's idempotent re-commit are modelled, kernel-evaluated in a counterexample and exercised by the harness, but are not operations of the refinement theorems. DeleteVersion/pruning/orphan records, batch atomicity, int8 heights are not modelled (pruning = nothing). Hash: injectivity of the node hash on its writeHashBytes input is a hypothesis. Context.PrevCtx is exercised over a synthetic block store (store part only). Trusted: Lean kernel; axioms propext, Classical.choice, Quot.sound; harness, hook and driver parser. With the optional height cache switched on (node flag, default off) historical reads are wrong in the ways recorded under C10; those defects were repaired (/repo 300d229); the cache-on streams keep their own `hcache-` signatures, which are violations like any other.",
 )
 
 RULE = ("c09: real rootmulti.Store over MemDB, two IAVL substores + one transient store, 24 short colliding keys; steps: set 30% / delete 15% / commit 8% / "
@@ -33,6 +33,12 @@ def run(ctx):
     # the optional height cache (C10's subject): its defects are visible through historical views
     ctx.stream("views-hcache", "c09", "Driver/C09.lean", n=20000 if ctx.thorough else 800, seed=ctx.seed * 1000 + 10, args=["-hcache"],
                drv_timeout=3000, timeout=3000)
+    # cache on, planned blocks: per block every substore is untouched | delete-only | set-only | mixed (so there are delete-only
+    # blocks and blocks touching only the other substore); after EVERY commit every height a 12-deep height cache can still serve
+    # (and the one below the window) is read completely through a fresh LoadLazyVersion | CacheMultiStoreWithVersion | PrevCtx view
+    # (full iteration of every substore, Get of the recently deleted keys) and a height query. hcache-* signatures are VIOLATIONs.
+    ctx.stream("views-hcache-plan", "c09", "Driver/C09.lean", n=6000 if ctx.thorough else 400, seed=ctx.seed * 1000 + 13,
+               args=["-hcache", "-plan"], drv_timeout=3000, timeout=3000)
     if ctx.thorough:
         ctx.stream("views-race", "c09", "Driver/C09.lean", n=20000, seed=ctx.seed * 1000 + 12, race=True, drv_timeout=3000, timeout=3000)
     run_stage_b(ctx)
